@@ -42,8 +42,8 @@ type c07In struct {
 	Hist    []string  `json:"history_hex,omitempty"`
 	Hist2   []string  `json:"history2_hex,omitempty"` // perm: the permuted history
 	Delim   int       `json:"delim,omitempty"`        // table: the single delimiter byte
-	Pred    *c07Pred  `json:"pred,omitempty"`
-	Full    bool      `json:"full,omitempty"` // trim: check the full statement of the property
+	Pred    *c07Pred  `json:"pred,omitempty"`         // trim: samples Hist, Trim(Pred), samples Hist2, optional Trim(Pred2)
+	Pred2   *c07Pred  `json:"pred2,omitempty"`
 	PermOf  string    `json:"perm_of,omitempty"`
 	Groups  []c07Expr `json:"groups,omitempty"`
 	Cols    []c07Col  `json:"cols,omitempty"`
@@ -384,55 +384,6 @@ func histTags(kind string, hist []string, d byte) (tags []string, nontrivial boo
 	return
 }
 
-// is the trim input in the domain of the recorded finding C07-trim-stale?  (decided from the input:
-// the history folded by the harness itself + the predicate)
-func trimInDefectDomain(hist []string, d byte, p *c07Pred) bool {
-	cells := map[string]map[string]int64{} // row -> col -> value
-	colset := map[string]bool{}
-	for _, s := range hist {
-		q := parseN(s, d, 2)
-		if !q.ok {
-			continue
-		}
-		if cells[q.b] == nil {
-			cells[q.b] = map[string]int64{}
-		}
-		cells[q.b][q.a] += q.inc
-		colset[q.a] = true
-	}
-	pred := p.fn()
-	colKept := map[string]bool{}
-	colHit := map[string]bool{}
-	for r, row := range cells {
-		kept, hit := 0, 0
-		for c, v := range row {
-			if pred(c, r, v) {
-				hit++
-				colHit[c] = true
-			} else {
-				kept++
-				colKept[c] = true
-			}
-		}
-		if kept > 0 && hit > 0 {
-			return true // a surviving row lost a cell: its Sum() is stale
-		}
-	}
-	for c := range colset {
-		if colKept[c] && colHit[c] {
-			return true // a surviving column lost a cell: ColTotal is stale
-		}
-		if !colKept[c] {
-			for r, row := range cells {
-				if _, has := row[c]; !has && !pred(c, r, 0) {
-					return true // emptied column, predicate false on an absent cell: column may stay
-				}
-			}
-		}
-	}
-	return false
-}
-
 // ---------------------------------------------------------------- one case
 func c07Case(in c07In) Case {
 	var coq string
@@ -486,29 +437,49 @@ func c07Case(in c07In) Case {
 				outs = append(outs, obsTable("ot", c, sortedCols(c)))
 			}
 		case "trim":
-			prefix = fmt.Sprintf("kTrim %s %d %s %s", B(in.Full), d, HLS(hist), in.Pred.coq())
-			t, nt := histTags("table", hist, d)
+			h2 := unhexs(in.Hist2)
+			p2 := "None"
+			if in.Pred2 != nil {
+				p2 = "(Some " + in.Pred2.coq() + ")"
+			}
+			prefix = fmt.Sprintf("kTrim %d %s %s %s %s", d, HLS(hist), in.Pred.coq(), HLS(h2), p2)
+			t, nt := histTags("table", append(append([]string(nil), hist...), h2...), d)
 			tags = append(tags, t...)
 			tags = append(tags, "pred="+in.Pred.Kind)
-			dom := trimInDefectDomain(hist, d, in.Pred)
-			if dom {
-				tags = append(tags, "trim-leaves-stale-total-or-empty-column")
+			if len(h2) > 0 {
+				tags = append(tags, "samples-after-trim")
 			}
-			if in.Full {
-				tags = append(tags, "trim-full-statement")
-				if dom {
-					tags = append(tags, "kf:C07-trim-stale")
-				}
+			if in.Pred2 != nil {
+				tags = append(tags, "second-trim", "pred2="+in.Pred2.Kind)
 			}
 			nontrivial = nt
+			// probe columns: every column any sample of the whole history mentions
+			pset := map[string]bool{}
+			for _, s := range append(append([]string(nil), hist...), h2...) {
+				if q := parseN(s, d, 2); q.ok {
+					pset[q.a] = true
+				}
+			}
+			probe := make([]string, 0, len(pset))
+			for k := range pset {
+				probe = append(probe, k)
+			}
+			sort.Strings(probe)
 			c := aggregation.NewTable(string([]byte{d}))
 			for _, s := range hist {
 				c.Sample(s)
 			}
-			pre := sortedCols(c)
-			outs = append(outs, obsTable("ot", c, pre))
+			outs = append(outs, obsTable("ot", c, probe))
 			c.Trim(in.Pred.fn())
-			outs = append(outs, obsTable("otrim", c, pre))
+			outs = append(outs, obsTable("ot", c, probe))
+			for _, s := range h2 {
+				c.Sample(s)
+				outs = append(outs, obsTable("ot", c, probe))
+			}
+			if in.Pred2 != nil {
+				c.Trim(in.Pred2.fn())
+				outs = append(outs, obsTable("ot", c, probe))
+			}
 		case "accum":
 			a := aggregation.NewAccumulatingGroup(stdlib.NewStdKeyBuilder())
 			gs := make([]string, len(in.Groups))
@@ -975,12 +946,29 @@ func c07Gen(r *Rng, n int, tier string) []Case {
 			}
 			cases = append(cases, c07Case(c07In{Kind: "table", Delim: int(d), Hist: hexs(c07Hist(r, 2, d))}))
 		case x < 64:
-			h := c07Hist(r, 2, 0)
-			p := c07GenPred(r, h, 0)
-			cases = append(cases, c07Case(c07In{Kind: "trim", Hist: hexs(h), Pred: p}))
-			if r.Chance(1, 2) {
-				cases = append(cases, c07Case(c07In{Kind: "trim", Hist: hexs(h), Pred: p, Full: true}))
+			d := byte(0)
+			if r.Chance(1, 6) {
+				d = Pick(r, []byte{' ', ','})
 			}
+			h := c07Hist(r, 2, d)
+			in := c07In{Kind: "trim", Delim: int(d), Hist: hexs(h), Pred: c07GenPred(r, h, d)}
+			if r.Chance(2, 3) {
+				// more samples after the Trim (same alphabets: they re-create trimmed cells, rows and columns)
+				k := r.Range(1, 12)
+				var h2 []string
+				for i := 0; i < k; i++ {
+					if len(h) > 0 && r.Chance(2, 3) {
+						h2 = append(h2, Pick(r, h))
+					} else {
+						h2 = append(h2, c07Sample(r, 2, d, 3, 3, r.Intn(4)))
+					}
+				}
+				in.Hist2 = hexs(h2)
+				if r.Chance(1, 2) {
+					in.Pred2 = c07GenPred(r, append(append([]string(nil), h...), h2...), d)
+				}
+			}
+			cases = append(cases, c07Case(in))
 		case x < 74:
 			cases = append(cases, c07Case(c07GenAccum(r)))
 		case x < 88:
@@ -1005,7 +993,7 @@ func main() {
 		Rule: "exhaustive small scope first (all histories of length <= 2 (quick) / 4 (thorough) over 2 keys x 2 sub-keys x increments {absent, -2, non-numeric}, for counter, sub-key counter and table), " +
 			"then seeded random cases of 7 kinds: counter / sub-key counter / table histories (length 0..60; keys and sub-keys from alphabets of size 1..4 in four styles incl. shared prefixes and bytes >= 0x80, empty, long random strings; " +
 			"increments absent / small / negative / 0 / +5 / ' 5' / non-numeric / empty / +-2^62 / int64 bounds and just beyond; extra fields; table delimiter NUL or another single byte), every public accessor read after every prefix; " +
-			"trim (table history + predicate by column set / row set / value threshold / column-and-value; observables before and after, half of them also checked against the property's full statement), " +
+			"trim (table history, Trim by column set / row set / value threshold / column-and-value, then 0..12 further samples that re-create trimmed cells, optionally a second Trim; every accessor before the first Trim and after every later call, Value/ColTotal probed at every column of the whole history, checked against the table determined by the cells alone), " +
 			"accumulating group (0..2 group expressions, 1..3 data expressions from {.}, {n}, {name}, literals, concatenation, sumi; histories of NUL-joined fields), numerical (integers with ties, dyadic fractions, decimals, large offset; " +
 			"parse errors; keep-values on/off; reverse; quantiles p whose index computation is exact in float64, some p<0 and p>=1), and permutation pairs (a history and a shuffle of it). " +
 			"distinct = distinct input; non-trivial = counter: a repeated key with an explicit increment or parse error; sub-key: a new sub-key sorting before existing ones while rows exist (re-index); table/trim: >=2 rows and >=2 columns with absent cells or negative values; accum: >=2 columns and >=3 samples; num: >=3 parsed samples; perm: >=3 samples.",
